@@ -29,6 +29,25 @@ MSG = {1: 'alpha', 2: 'beta', 3: 'gamma é', 7: 'seven', 9: ''}
 OUTCOMES = ['v', 'u', 'r', 'p', 'o', 't', 'dv', 'de', 'du', 'x']
 
 
+def unencodable(n):
+    """values json.dumps cannot encode, failing in three different ways: TypeError (a set),
+    ValueError (circular reference), RecursionError (nesting deeper than the interpreter's
+    recursion limit)"""
+    k = n % 3
+    if k == 0:
+        return {1, 2, n}
+    if k == 1:
+        a = [n]
+        a.append(a)
+        return a
+    deep = cur = []
+    for _ in range(3000):
+        nxt = []
+        cur.append(nxt)
+        cur = nxt
+    return deep
+
+
 def make_session_cls(mods):
     sess, jr = mods['session'], mods['jsonrpc']
 
@@ -57,7 +76,7 @@ def make_session_cls(mods):
             if kind == 'v':
                 return {'ok': o[1]}
             if kind == 'u':
-                return {1, 2, o[1]}
+                return unencodable(o[1])
             if kind == 'r':
                 raise jr.RPCError(o[1], MSG[o[2]], cost=float(o[3]))
             if kind == 'p':
@@ -70,7 +89,7 @@ def make_session_cls(mods):
             if kind == 'dv':
                 raise sess.ReplyAndDisconnect({'ok': o[1]})
             if kind == 'du':
-                raise sess.ReplyAndDisconnect({1, 2, o[1]})
+                raise sess.ReplyAndDisconnect(unencodable(o[1]))
             if kind == 'de':
                 raise sess.ReplyAndDisconnect(jr.RPCError(o[1], MSG[o[2]], cost=float(o[3])))
             raise AssertionError(o)
@@ -283,6 +302,9 @@ def exhaustive_cases(pairs=True):
             if kind == 'B' and o == 'x':
                 continue
             cases.append(([(kind, concrete(o, 1))], [0]))
+            if o in ('u', 'du'):
+                cases.append(([(kind, concrete(o, 0))], [0]))
+                cases.append(([(kind, concrete(o, 2))], [0]))
     if pairs:
         for (k1, o1), (k2, o2) in itertools.product(
                 itertools.product(('R', 'N', 'B'), OUTCOMES), repeat=2):
